@@ -25,7 +25,7 @@ func syncScenarios(r *mon.Run, label string) []Scenario {
 	idx := 0
 	for a := 0; a <= maxLen; a++ {
 		for b := 0; b <= maxLen; b++ {
-			for variant := 0; variant < 9; variant++ {
+			for variant := 0; variant < 10; variant++ {
 				for _, peers := range []bool{false, true} {
 					if !r.Thorough() {
 						// quick: variants 0 and 1 everywhere, 2 and 3 on a diagonal sample
@@ -130,6 +130,7 @@ func runSyncCheck(prop, monitor, tier, replay string) int {
 		r.Count("bugs", res.Bugs)
 		r.Count("identity_pull_observations", res.IdentityPulls)
 		r.Count("mid_schedule_convergence_checks(same ops, different heads)", res.PairChecks)
+		r.Count("listings_compared_with_stock_git", res.ListingChecks)
 		for k, v := range res.PairStates {
 			r.Count("pair_state/"+k, v)
 		}
